@@ -1,25 +1,25 @@
-SPECIFICATION SafetySpec
+SPECIFICATION Spec
 CONSTANTS
   QCap = 1
-  NIn = 1
-  NOut = 1
+  NIn = 0
+  NOut = 0
   MaxGen = 2
   UserNames = {}
   SenderNames = {}
   NSend = 0
   Burst = TRUE
   AllowEOF = TRUE
-  AllowCancel = TRUE
+  AllowCancel = FALSE
   AllowWErr = FALSE
   AllowStall = FALSE
-  Reconnect = "other"
+  Reconnect = "eager"
   ConnectWhileUp = FALSE
   HasPing = FALSE
   DrainOnce = FALSE
   StaleClose = FALSE
   NoWatcher = FALSE
   InitBeforeCheck = FALSE
-  EarlyUnlock = FALSE
-INVARIANTS TypeOK AtMostOneDisc RegisterOnce DiscSeesDisconnected NoCrash OwnClose ClosedForACause GoneAfterDisc WireOrdered AllWritten
-
+  EarlyUnlock = TRUE
+INVARIANTS TypeOK AtMostOneDisc RegisterOnce NoCrash OwnClose ClosedForACause GoneAfterDisc WireOrdered AllWritten
+PROPERTIES CloseReturns EndedGenDisconnects NoLeak
 CHECK_DEADLOCK FALSE
